@@ -261,8 +261,17 @@ def check_reversal(idx, run):
         loc(mod, sched))
 
 
+
+GUARDED = [
+    ('AssignmentTrans', 'validate'),
+    ('AdjointVisitor', 'loop_node'),
+    ('AdjointVisitor', 'ifblock_node'),
+]
+
 def check(idx, run):
     run.explanation = __doc__
+    from sa.guards import check_guards
+    check_guards(idx, run, "C19.R5", GUARDED)
     check_sign_flow(idx, run)
     check_reversal(idx, run)
     check_table(idx, run, "C19.R3", {
